@@ -83,6 +83,37 @@ Qed.
 (* AppendPayload (after repo commit 564095a the destination is sliced by len(payload)) *)
 Definition pad46 (pl : bytes) : bytes := pl ++ repeat 0 (46 - length pl).
 
+Lemma pad46_length pl : length (pad46 pl) = Nat.max 46 (length pl).
+Proof. unfold pad46. rewrite app_length, repeat_length. lia. Qed.
+
+(* the bytes AppendPayload leaves: header, payload, zero padding up to 60 bytes *)
+Lemma ether_append_bytes dst src ht rest pl pcap :
+  length src = 6%nat -> length dst = 6%nat -> ht < 65536 -> hlen_of_type ht = 14%nat ->
+  (length pl <= length rest)%nat -> (46 <= length rest)%nat ->
+  ether_append (mkSlice (ether_hdr dst src ht ++ rest) 14) pl pcap
+  = Ok (mkSlice (ether_hdr dst src ht ++ pad46 pl ++ skipn (length (pad46 pl)) rest) (14 + length (pad46 pl))).
+Proof.
+  intros Hs Hd Hht Hhl Hpl H46.
+  pose proof (pad46_length pl) as Hpad.
+  do 6 (destr_list src Hs). destruct src; [|discriminate].
+  do 6 (destr_list dst Hd). destruct dst; [|discriminate].
+  unfold ether_hdr in *. cbn [app] in *.
+  unfold ether_append, ether_payload, ether_hlen, ether_type, be16_at, reslice, sl, cap.
+  destruct (Nat.ltb_spec (14 + length pl) 60) as [Hshort|Hlong].
+  - runs.
+    assert (E46 : length (pad46 pl) = 46%nat) by lia.
+    rewrite E46. f_equal. f_equal. repeat f_equal.
+    rewrite blit0 by lia. rewrite blit_app_r0.
+    rewrite blit0 by (rewrite repeat_length, skipn_length; lia).
+    unfold pad46. rewrite <- app_assoc. f_equal.
+    replace (60 - S (S (S (S (S (S (S (S (S (S (S (S (S (S (length pl)))))))))))))))%nat with (46 - length pl)%nat by lia.
+    f_equal. rewrite repeat_length, skipn_skipn'. f_equal. lia.
+  - runs.
+    assert (E : pad46 pl = pl) by (unfold pad46; replace (46 - length pl)%nat with 0%nat by lia; apply app_nil_r).
+    rewrite E. f_equal. f_equal. repeat f_equal.
+    rewrite blit0 by lia. reflexivity.
+Qed.
+
 Theorem ether_append_rt b ht src dst pl pcap :
   (14 + length pl <= cap b)%nat -> (60 <= cap b)%nat -> length src = 6%nat -> length dst = 6%nat ->
   ht < 65536 -> hlen_of_type ht = 14%nat ->
@@ -105,26 +136,7 @@ Proof.
   { unfold pad46. rewrite app_length, repeat_length. lia. }
   assert (Happ : ether_append (mkSlice (ether_hdr dst src ht ++ rest) 14) pl pcap
                  = Ok (mkSlice (ether_hdr dst src ht ++ pad46 pl ++ T) (14 + length (pad46 pl)))).
-  { unfold T. clear T. revert Hrest Hpad. generalize rest. clear rest. intros rest Hrest Hpad.
-    do 6 (destr_list src Hs). destruct src; [|discriminate].
-    do 6 (destr_list dst Hd). destruct dst; [|discriminate].
-    unfold ether_hdr in *. cbn [app] in *.
-    unfold ether_append, ether_payload, ether_hlen, ether_type, be16_at, reslice, sl, cap.
-    destruct (Nat.ltb_spec (14 + length pl) 60) as [Hshort|Hlong].
-    - (* short payload: zero-padded to the 60-byte minimum *)
-      runs.
-      assert (E46 : length (pad46 pl) = 46%nat) by lia.
-      rewrite E46. f_equal. f_equal. repeat f_equal.
-      rewrite blit0 by lia. rewrite blit_app_r0.
-      rewrite blit0 by (rewrite repeat_length, skipn_length; lia).
-      unfold pad46. rewrite <- app_assoc. f_equal.
-      replace (60 - S (S (S (S (S (S (S (S (S (S (S (S (S (S (length pl)))))))))))))))%nat with (46 - length pl)%nat by lia.
-      f_equal. rewrite repeat_length, skipn_skipn'. f_equal. lia.
-    - (* 46 bytes or more: no padding *)
-      runs.
-      assert (E : pad46 pl = pl) by (unfold pad46; replace (46 - length pl)%nat with 0%nat by lia; apply app_nil_r).
-      rewrite E. f_equal. f_equal. repeat f_equal.
-      rewrite blit0 by lia. reflexivity. }
+  { unfold T. apply ether_append_bytes; try assumption; lia. }
   split. { exact Happ. }
   split. { cbn [len]. lia. }
   split. { unfold cap at 1. cbn [arr]. unfold T, rest. rewrite !app_length, !skipn_length, Hh. unfold cap in *. lia. }
